@@ -54,7 +54,55 @@ const (
 	c11KSizes
 	c11KFlush
 	c11KClose
+	c11KRaw // in-place write: NeedSpace(v), then data stored at WriteBuf[WritePos:], WritePos += len(data)
 )
+
+// receive scripts are lists of kinds; an in-place read of k bytes (Fill(k) unless the window
+// holds k bytes, then ReadBuf[ReadStart:ReadStart+k], ReadStart += k) is coded c11RawBase+k
+const c11RawBase = 1000
+
+func (o c11Op) isValue() bool { return o.kind < c11KFlush || o.kind == c11KRaw }
+
+// the receive that matches a send op
+func (o c11Op) recvCode() int {
+	if o.kind == c11KRaw {
+		return c11RawBase + len(o.data)
+	}
+	return o.kind
+}
+
+// number of bytes the op puts on the wire
+func (o c11Op) wireLen() int {
+	switch o.kind {
+	case c11KByte:
+		return 1
+	case c11KU16:
+		return 2
+	case c11KU32:
+		return 4
+	case c11KData, c11KString:
+		return 4 + len(o.data)
+	case c11KLabel:
+		return 16
+	case c11KSizes:
+		return 4 + 4*len(o.sizes)
+	case c11KRaw:
+		return len(o.data)
+	}
+	return 0
+}
+
+func c11RecvSX(codes []int) SX {
+	l := make([]SX, len(codes))
+	for i, k := range codes {
+		if k >= c11RawBase {
+			l[i] = L(I(7), I(k-c11RawBase))
+		} else {
+			l[i] = I(k)
+		}
+	}
+	return L(l...)
+}
 
 type c11Op struct {
 	kind  int
@@ -117,6 +165,8 @@ func (o c11Op) sx() SX {
 		return L(I(c11KLabel), Label(o.label))
 	case c11KSizes:
 		return L(I(c11KSizes), Ints(o.sizes))
+	case c11KRaw:
+		return L(I(c11KRaw), I(o.v), o.payloadSX())
 	}
 	return L(I(o.kind))
 }
@@ -147,6 +197,11 @@ func (o c11Op) String() string {
 		return fmt.Sprintf("Sizes(%v)", o.sizes)
 	case c11KFlush:
 		return "Flush"
+	case c11KRaw:
+		if o.gen {
+			return fmt.Sprintf("NeedSpace(%d)+store(gen n=%d seed=%d)", o.v, len(o.data), o.seed)
+		}
+		return fmt.Sprintf("NeedSpace(%d)+store(%x)", o.v, o.data)
 	}
 	return "Close"
 }
@@ -182,6 +237,8 @@ func (v c11Val) encode() []byte {
 		out = binary.BigEndian.AppendUint16(nil, uint16(v.n))
 	case c11KU32:
 		out = binary.BigEndian.AppendUint32(nil, uint32(v.n))
+	case c11KRaw:
+		out = append(out, v.data...)
 	case c11KData, c11KString:
 		out = binary.BigEndian.AppendUint32(nil, uint32(len(v.data)))
 		out = append(out, v.data...)
@@ -224,6 +281,8 @@ func (v c11Val) sx(sparse bool) SX {
 	switch v.kind {
 	case c11KByte, c11KU16, c11KU32:
 		return L(I(v.kind), U64(v.n))
+	case c11KRaw:
+		return L(I(7), c11BytesSX(v.data, sparse))
 	case c11KData, c11KString:
 		return L(I(v.kind), c11BytesSX(v.data, sparse))
 	case c11KLabel:
@@ -236,7 +295,7 @@ func (v c11Val) String() string {
 	switch v.kind {
 	case c11KByte, c11KU16, c11KU32:
 		return fmt.Sprintf("%d:%d", v.kind, v.n)
-	case c11KData, c11KString:
+	case c11KData, c11KString, c11KRaw:
 		if len(v.data) > 24 {
 			return fmt.Sprintf("%d:len=%d adler=%08x", v.kind, len(v.data), adler32.Checksum(v.data))
 		}
@@ -257,7 +316,7 @@ func (o c11Op) expect() (c11Val, bool) {
 		return c11Val{kind: c11KU16, n: uint64(uint16(o.v))}, true
 	case c11KU32:
 		return c11Val{kind: c11KU32, n: uint64(uint32(o.v))}, true
-	case c11KData, c11KString:
+	case c11KData, c11KString, c11KRaw:
 		return c11Val{kind: o.kind, data: o.data}, true
 	case c11KLabel:
 		return c11Val{kind: c11KLabel, label: o.label}, true
@@ -274,14 +333,15 @@ func (o c11Op) expect() (c11Val, bool) {
 type c11Seg struct{ count, size int } // run-length segment sizes of the reading side
 
 type c11Script struct {
-	ops     []c11Op
-	recv    []int // receive kinds
-	segs    []c11Seg
-	class   string // generator class of the ops
-	rclass  string // match | retyped | prefix | overread
-	fclass  string // fragmentation class
-	eofData bool   // the transport returns its last bytes together with io.EOF
-	sparse  bool   // long byte strings are compared by a sparse digest (multi-megabyte payloads)
+	ops      []c11Op
+	recv     []int // receive kinds
+	segs     []c11Seg
+	class    string // generator class of the ops
+	rclass   string // match | retyped | prefix | overread
+	fclass   string // fragmentation class
+	eofData  bool   // the transport returns its last bytes together with io.EOF
+	noCloser bool   // the transport handed to NewConn does not implement io.Closer
+	sparse   bool   // long byte strings are compared by a sparse digest (multi-megabyte payloads)
 }
 
 // ---- scripted transport (one direction)
@@ -431,17 +491,30 @@ func (e *c11End) Close() error {
 
 // ---- running one direction
 
+// c11EndNoClose hides the Close method of the endpoint.
+type c11EndNoClose struct{ rw io.ReadWriter }
+
+func (e c11EndNoClose) Read(p []byte) (int, error)  { return e.rw.Read(p) }
+func (e c11EndNoClose) Write(p []byte) (int, error) { return e.rw.Write(p) }
+
 type c11SendRes struct {
+	// first op after which Stats.Sent + WritePos differs from the bytes of all values sent so far
+	statAt   int
+	statSent uint64
+	statPos  int
+	statWant int
 	trace    []SX
 	ptrs     []*byte // c.WriteBuf identity after every op
 	err      error
 	errAt    int
 	sent     uint64
 	closeLen int // bytes on the wire when Close returned (-1: no Close / mode 1)
+	produced int // bytes of all values sent
 }
 
 func c11Send(conn *p2p.Conn, ops []c11Op, wire *c11Wire) c11SendRes {
-	res := c11SendRes{errAt: -1, closeLen: -1}
+	res := c11SendRes{errAt: -1, closeLen: -1, statAt: -1}
+	produced := 0
 	var ld ot.LabelData
 	for i, o := range ops {
 		var err error
@@ -453,7 +526,11 @@ func c11Send(conn *p2p.Conn, ops []c11Op, wire *c11Wire) c11SendRes {
 		case c11KU32:
 			err = conn.SendUint32(o.v)
 		case c11KData:
-			err = conn.SendData(o.data)
+			if len(o.data) == 0 && i%2 == 1 {
+				err = conn.SendData(nil)
+			} else {
+				err = conn.SendData(o.data)
+			}
 		case c11KString:
 			err = conn.SendString(string(o.data))
 		case c11KLabel:
@@ -468,6 +545,12 @@ func c11Send(conn *p2p.Conn, ops []c11Op, wire *c11Wire) c11SendRes {
 			err = conn.SendInputSizes(o.sizes)
 		case c11KFlush:
 			err = conn.Flush()
+		case c11KRaw:
+			// the in-place write API used by circuit.Streaming.Garble
+			if err = conn.NeedSpace(o.v); err == nil {
+				copy(conn.WriteBuf[conn.WritePos:], o.data)
+				conn.WritePos += len(o.data)
+			}
 		case c11KClose:
 			err = conn.Close()
 			if wire != nil {
@@ -482,6 +565,12 @@ func c11Send(conn *p2p.Conn, ops []c11Op, wire *c11Wire) c11SendRes {
 			break
 		}
 		res.trace = append(res.trace, L(I(conn.WritePos), U64(conn.Stats.Sent.Load()), U64(conn.Stats.Flushed.Load()), I(-1)))
+		// byte counter = bytes moved at every point: what was handed to the writer plus what is
+		// still in the buffer is everything produced so far (after a Flush: WritePos = 0)
+		produced += o.wireLen()
+		if sent := conn.Stats.Sent.Load(); res.statAt < 0 && sent+uint64(conn.WritePos) != uint64(produced) {
+			res.statAt, res.statSent, res.statPos, res.statWant = i, sent, conn.WritePos, produced
+		}
 		if len(conn.WriteBuf) > 0 {
 			res.ptrs = append(res.ptrs, &conn.WriteBuf[0])
 		} else {
@@ -490,9 +579,10 @@ func c11Send(conn *p2p.Conn, ops []c11Op, wire *c11Wire) c11SendRes {
 	}
 	res.sent = conn.Stats.Sent.Load()
 	if wire != nil {
-		// everything handed to the writer goroutine is all the wire will ever carry
-		wire.setTotal(int(res.sent))
+		// every script ends with Flush or Close: all produced bytes are what the wire will carry
+		wire.setTotal(produced)
 	}
+	res.produced = produced
 	return res
 }
 
@@ -524,6 +614,18 @@ func c11Recv(conn *p2p.Conn, kinds []int, wire *c11Wire, sparse bool) c11RecvRes
 	for i, k := range kinds {
 		v := c11Val{kind: k}
 		var err error
+		if k >= c11RawBase {
+			// the in-place read API
+			n := k - c11RawBase
+			v.kind = c11KRaw
+			if conn.ReadStart+n > conn.ReadEnd {
+				err = conn.Fill(n)
+			}
+			if err == nil {
+				v.data = append([]byte{}, conn.ReadBuf[conn.ReadStart:conn.ReadStart+n]...)
+				conn.ReadStart += n
+			}
+		}
 		switch k {
 		case c11KByte:
 			var b byte
@@ -663,7 +765,49 @@ func c11RandLabel(r *RNG) (ot.Label, string) {
 	return ot.Label{D0: r.U64(), D1: r.U64()}, "random"
 }
 
+// c11RawOp: NeedSpace(n) followed by an in-place store of at most n bytes.
+func c11RawOp(r *RNG, c *Ctx, garbleLike bool) c11Op {
+	var n, l int
+	shape := r.Intn(8)
+	if garbleLike && shape < 6 {
+		shape = 0
+	}
+	switch shape {
+	case 0, 1: // circuit.Streaming.Garble: NeedSpace(512), then up to 512 bytes
+		n, l = 512, 1+r.Intn(512)
+	case 2:
+		l = 1 + r.Intn(64)
+		n = l
+	case 3:
+		n = 1 + r.Intn(2000)
+		l = r.Intn(n + 1)
+	case 4:
+		n, l = 1+r.Intn(100), 0
+	case 5: // up to a whole buffer
+		n = c11WriteBuf - r.Intn(3)
+		l = n - r.Intn(40)
+	case 6:
+		n = 16 + r.Intn(5000)
+		l = n
+	default:
+		n, l = 1+r.Intn(20), 1
+	}
+	c.Hist("op:NeedSpace:" + c11SizeClass(n))
+	o := c11Op{kind: c11KRaw, v: n}
+	if l <= 48 {
+		o.data = r.Bytes(l)
+	} else {
+		o.seed = r.Intn(65536)
+		o.gen = true
+		o.data = c11GenBytes(l, o.seed)
+	}
+	return o
+}
+
 func c11RandOp(r *RNG, c *Ctx, big bool) c11Op {
+	if r.Intn(9) == 0 {
+		return c11RawOp(r, c, false)
+	}
 	switch r.Intn(13) {
 	case 0, 1:
 		return c11Op{kind: c11KByte, b: byte(r.U64())}
@@ -763,6 +907,17 @@ func c11GenOps(r *RNG, c *Ctx, class string, flushP int) []c11Op {
 				l, shape := c11RandLabel(r)
 				c.Hist("label:" + shape)
 				add(c11Op{kind: c11KLabel, label: l, fresh: r.Intn(8) == 0})
+			}
+		}
+	case "inplace":
+		// the in-place write path producing several write-buffer rollovers inside NeedSpace,
+		// mixed with Send* and explicit Flushes
+		n := 150 + r.Intn(350)
+		for i := 0; i < n; i++ {
+			if r.Intn(6) == 0 {
+				add(c11RandOp(r, c, false))
+			} else {
+				add(c11RawOp(r, c, true))
 			}
 		}
 	case "mixed":
@@ -923,11 +1078,14 @@ func c11Retype(r *RNG, o c11Op) []int {
 	case c11KSizes:
 		return append([]int{c11KU32}, rep(c11KU32, len(o.sizes))...)
 	}
-	return []int{o.kind}
+	return []int{o.recvCode()}
 }
 
 func c11GenScript(r *RNG, c *Ctx, mode int, class string) *c11Script {
 	flushP := []int{0, 0, 10, 30, 60, 100}[r.Intn(6)]
+	if class == "inplace" {
+		flushP = []int{0, 0, 1, 3}[r.Intn(4)]
+	}
 	s := &c11Script{class: class}
 	s.ops = c11GenOps(r, c, class, flushP)
 	closes := r.Intn(10) < 7
@@ -942,8 +1100,8 @@ func c11GenScript(r *RNG, c *Ctx, mode int, class string) *c11Script {
 	var match []int
 	var sendOps []c11Op
 	for _, o := range s.ops {
-		if o.kind < c11KFlush {
-			match = append(match, o.kind)
+		if o.isValue() {
+			match = append(match, o.recvCode())
 			sendOps = append(sendOps, o)
 		}
 	}
@@ -958,7 +1116,7 @@ func c11GenScript(r *RNG, c *Ctx, mode int, class string) *c11Script {
 				if r.Intn(3) > 0 {
 					s.recv = append(s.recv, c11Retype(r, o)...)
 				} else {
-					s.recv = append(s.recv, o.kind)
+					s.recv = append(s.recv, o.recvCode())
 				}
 			}
 		case x == 1 && len(match) > 1:
@@ -970,6 +1128,7 @@ func c11GenScript(r *RNG, c *Ctx, mode int, class string) *c11Script {
 		}
 		s.segs, s.fclass = c11GenSegs(r, c11StreamLen(s.ops))
 		s.eofData = r.Intn(4) == 0
+		s.noCloser = r.Intn(5) == 0
 	} else {
 		s.fclass = "pipe-chunks"
 	}
@@ -1005,8 +1164,8 @@ func c11AtSizeScript(r *RNG, c *Ctx, mode, size, kind, frag int) *c11Script {
 		s.ops = append(s.ops, c11Op{kind: c11KFlush})
 	}
 	for _, o := range s.ops {
-		if o.kind < c11KFlush {
-			s.recv = append(s.recv, o.kind)
+		if o.isValue() {
+			s.recv = append(s.recv, o.recvCode())
 		}
 	}
 	if mode == 1 {
@@ -1054,7 +1213,7 @@ func (s *c11Script) inputSX(mode int) SX {
 	for _, sg := range s.segs {
 		frags = append(frags, L(I(sg.count), I(sg.size)))
 	}
-	return L(I(mode), L(ops...), Ints(s.recv), L(frags...), Bool(s.eofData), Bool(s.sparse))
+	return L(I(mode), L(ops...), c11RecvSX(s.recv), L(frags...), Bool(s.eofData), Bool(s.sparse))
 }
 
 func (s *c11Script) text() string {
@@ -1062,12 +1221,13 @@ func (s *c11Script) text() string {
 	for _, o := range s.ops {
 		t += o.String() + ";"
 	}
-	return fmt.Sprintf("ops=%s recv=%v segs=%v eofWithData=%v", t, s.recv, s.segs, s.eofData)
+	return fmt.Sprintf("ops=%s recv=%v segs=%v eofWithData=%v transportHasCloser=%v", t, s.recv, s.segs, s.eofData, !s.noCloser)
 }
 
 // ---- sessions
 
 type c11Dir struct {
+	apiErr string
 	script *c11Script
 	send   c11SendRes
 	recv   c11RecvRes
@@ -1090,8 +1250,16 @@ func c11RunSession(mode int, ab, ba *c11Dir) (ok bool, closeErrs []error) {
 	if mode == 0 {
 		ab.wire = newC11Wire(ab.script.segs, ab.script.eofData)
 		ba.wire = newC11Wire(ba.script.segs, ba.script.eofData)
-		A = p2p.NewConn(&c11End{r: ba.wire, w: ab.wire})
-		B = p2p.NewConn(&c11End{r: ab.wire, w: ba.wire})
+		// NewConn on an io.ReadWriter with and without io.Closer
+		var ea, eb io.ReadWriter = &c11End{r: ba.wire, w: ab.wire}, &c11End{r: ab.wire, w: ba.wire}
+		if ab.script.noCloser {
+			ea = c11EndNoClose{ea}
+		}
+		if ba.script.noCloser {
+			eb = c11EndNoClose{eb}
+		}
+		A = p2p.NewConn(ea)
+		B = p2p.NewConn(eb)
 	} else {
 		A, B = p2p.Pipe()
 	}
@@ -1156,8 +1324,15 @@ func c11RunSession(mode int, ab, ba *c11Dir) (ok bool, closeErrs []error) {
 	if mode == 0 {
 		// Flush returns when the chunk is queued, not when it is written: give the
 		// writer goroutines time to finish before the transport is inspected
-		ab.wire.waitLen(int(ab.send.sent), 10*time.Second)
-		ba.wire.waitLen(int(ba.send.sent), 10*time.Second)
+		ab.wire.waitLen(ab.send.produced, 10*time.Second)
+		ba.wire.waitLen(ba.send.produced, 10*time.Second)
+	}
+	// IOStats API: Sum and Add
+	for i, cn := range []*p2p.Conn{A, B} {
+		st := cn.Stats
+		if st.Sum() != st.Sent.Load()+st.Recvd.Load() || st.Add(st).Sum() != 2*st.Sum() {
+			[]*c11Dir{ab, ba}[i].apiErr = fmt.Sprintf("Stats.Sum()=%d, Sent=%d, Recvd=%d, Add(self).Sum()=%d", st.Sum(), st.Sent.Load(), st.Recvd.Load(), st.Add(st).Sum())
+		}
 	}
 	ab.recvd = B.Stats.Recvd.Load()
 	ba.recvd = A.Stats.Recvd.Load()
@@ -1227,8 +1402,21 @@ func c11Judge(c *Ctx, sess int, mode int, name string, d *c11Dir) {
 	} else if maxPayload == c11ReadBuf {
 		sfx = ":payload=readBufSize"
 	}
+	if d.apiErr != "" {
+		fail("c11:stats:Sum-or-Add", d.apiErr)
+	}
+	if d.send.statAt >= 0 {
+		i := d.send.statAt
+		key := "c11:stats:sent-differs-from-bytes-moved" + sfx
+		if s.ops[i].kind == c11KRaw {
+			key += ":NeedSpace-rollover"
+		}
+		fail(key, fmt.Sprintf("after op %d %s (preceded by %s): Stats.Sent=%d + WritePos=%d != %d bytes produced by the ops so far (short by %d)",
+			i, c11Clip(s.ops[i].String(), 120), c11OpsAround(s.ops, i), d.send.statSent, d.send.statPos, d.send.statWant,
+			int64(d.send.statWant)-int64(d.send.statSent)-int64(d.send.statPos)))
+	}
 	// Sent = bytes handed to the transport
-	if d.send.sent != uint64(len(stream)) {
+	if d.send.statAt < 0 && d.send.sent != uint64(len(stream)) {
 		fail("c11:stats:sent-differs-from-bytes-moved"+sfx, fmt.Sprintf("Stats.Sent=%d, bytes of all sent values=%d (largest payload %d)", d.send.sent, len(stream), maxPayload))
 	}
 	// Recvd = bytes served by the transport, after every receive
@@ -1365,8 +1553,27 @@ func c11StaleLabel(sendOps []c11Op, i int, got ot.Label) (key, detail string, ok
 	return "", "", false
 }
 
+// the few ops before op i, for failure messages
+func c11OpsAround(ops []c11Op, i int) string {
+	t := ""
+	lo := i - 4
+	if lo < 0 {
+		lo = 0
+	}
+	for j := lo; j < i; j++ {
+		t += c11Clip(ops[j].String(), 60) + "; "
+	}
+	if lo > 0 {
+		t = fmt.Sprintf("... %d earlier ops ...; ", lo) + t
+	}
+	return t
+}
+
 func c11KindName(k int) string {
-	return []string{"Byte", "Uint16", "Uint32", "Data", "String", "Label", "InputSizes", "Flush", "Close"}[k]
+	if k >= c11RawBase {
+		return "InPlaceRead"
+	}
+	return []string{"Byte", "Uint16", "Uint32", "Data", "String", "Label", "InputSizes", "Flush", "Close", "NeedSpace+store"}[k]
 }
 
 func c11FirstDiff(a, b []byte) int {
@@ -1397,11 +1604,13 @@ func runC11(c *Ctx) error {
 		n     int
 	}
 	plans := []plan{
-		{0, "small", c.N(280, 4000)},
-		{0, "mixed", c.N(12, 600)},
+		{0, "small", c.N(250, 4000)},
+		{0, "mixed", c.N(8, 600)},
 		{0, "boundary", c.N(10, 300)},
 		{0, "bigstream", c.N(1, 12)},
-		{1, "small", c.N(60, 1000)},
+		{0, "inplace", c.N(3, 200)},
+		{1, "inplace", c.N(1, 60)},
+		{1, "small", c.N(50, 1000)},
 		{1, "mixed", c.N(4, 150)},
 		{1, "boundary", c.N(3, 80)},
 		{1, "bigstream", c.N(0, 4)},
@@ -1479,7 +1688,7 @@ func runC11(c *Ctx) error {
 				nvals := 0
 				for _, o := range s.ops {
 					c.Hist("op:" + c11KindName(o.kind))
-					if o.kind < c11KFlush {
+					if o.isValue() {
 						nvals++
 					}
 				}
